@@ -110,7 +110,11 @@ func runCheck(propID, repo, verif, tier string, verbose bool) int {
 	loadS := time.Since(t0).Seconds()
 	var units []*Unit
 	for _, k := range prop.Functions {
-		units = append(units, p.verifyFunc(expandKey(p, k), ""))
+		mode := "nosafety"
+		if prop.Safety {
+			mode = ""
+		}
+		units = append(units, p.verifyFunc(expandKey(p, k), mode))
 	}
 	for _, l := range prop.Lemmas {
 		units = append(units, p.verifyLemma(l))
